@@ -1,4 +1,5 @@
 import SaVerif.Model.Naming
+import SaVerif.Gen.NamingTables
 import SaVerif.Drv.Ident
 namespace SaVerif.Drv.Naming
 open SaVerif.Drv SaVerif.Ident SaVerif.Naming
@@ -12,6 +13,8 @@ def parseReq? (s : String) : Option (Nat × Str) :=
     let nn ← parseCps? n
     pure (cc, nn)
   | _ => none
+
+def showCpsList' (l : List Str) : String := if l.isEmpty then "-" else ",".intercalate (l.map showCps)
 
 def showErr : ConvErr → String
   | .keyError => "keyerror"
@@ -48,7 +51,30 @@ def showLOut : LOut → String
   | .identifierError => "identifiererror"
   | .name r => showCps r
 
+/-- `id~tbl~name` -/
+def parseCol? (s : String) : Option Col :=
+  match s.splitOn "~" with
+  | [i, t, n] => do
+    let ii ← i.toNat?
+    let tt ← parseCps? t
+    let nn ← parseCps? n
+    pure ⟨ii, tt, nn⟩
+  | _ => none
+
+/-- canonical pattern of a list of keys: index of the first equal element -/
+def firstIdx (l : List BKey) : List Nat := l.map (fun k => l.idxOf k)
+
 def handle : List String → String
+  | ["labels", tq, cols] =>
+    match (if cols == "-" then some [] else (cols.splitOn ",").mapM parseCol?) with
+    | some cs => showCpsList' (renderLabs AMap.empty (genNames (tq == "T") true cs))
+    | none => "bad-op"
+  | ["derive", uniq, k] =>
+    match k.toNat? with
+    | some n =>
+      let ids := (List.range n).map (· + 2)
+      showNatList (firstIdx ((deriveText (mkBind 1 [118] (uniq == "T")) SaVerif.Gen.NamingTables.textBindparamsMaintainKey ids).map (·.key)))
+    | none => "bad-op"
   | ["life", mi, ud, ll, mx, mc, md5, ops] =>
     match mi.toNat?, optNat? ll, optNat? mx, optNat? mc, parseCps? md5,
         (if ops == "-" then some [] else (ops.splitOn ",").mapM parseLOp?) with
